@@ -505,7 +505,25 @@ def c17(run):
         extra_assumptions=["encoding/json and encoding/xml are the fidelity oracle (encode/decode fidelity cannot be expressed over uninterpreted bytes in TLA+)"])
 
 
-PROPS = {"C17": c17, "C18": c18, "C16": c16, "C05": c05, "C06": c06, "C11": c11, "C04": c04, "C03": c03, "C14": c14, "C15": c15, "C13": c13, "C01": c01, "C02": c02, "C07": c07, "C08": c08, "C09": c09, "C10": c10, "C12": c12}
+# ============================================================== growth beyond the listed properties
+def xmisc(run):
+    run.build_harness()
+    cfg = lambda dev, emit: ("SPECIFICATION Spec\nCONSTANTS\n Dev = %s\n EmitCases = %s\nINVARIANT Conforms\nCONSTRAINT EmitCase\nCHECK_DEADLOCK FALSE\n"
+                             % (vlib.tla_set(dev), "TRUE" if emit else "FALSE"))
+    run.tlc("Misc", cfg(["FWDFIRST"], False), name="MI_neg", expect_violation="Conforms", workers=4)
+    r = run.model_check("Misc", cfg([], True), name="MI_gen", want_cases=True, workers=4)
+    run.conformance("misc_table", "misc", r["cases_file"], "MiscTrace", TRACE_CFG % "")
+    gen = os.path.join(run.work, "misc_rand.jsonl")
+    with open(gen, "w") as fo:
+        p = run.hrun(["misc", "gen", run.seed, 1000 if run.tier == "quick" else 50000], stdout=fo)
+    if p.returncode != 0:
+        raise Infra("misc gen failed: " + p.stderr[-2000:])
+    run.conformance("misc_random", "misc", gen, "MiscTrace", TRACE_CFG % "")
+    return run.finish(rule="RemoteAddr / Redirect / SetEnv / Logger decision tables (specification growth beyond the eighteen properties); "
+                           "every cell and random values on the real code, judged by TLC (MiscTrace).")
+
+
+PROPS = {"XMISC": xmisc, "C17": c17, "C18": c18, "C16": c16, "C05": c05, "C06": c06, "C11": c11, "C04": c04, "C03": c03, "C14": c14, "C15": c15, "C13": c13, "C01": c01, "C02": c02, "C07": c07, "C08": c08, "C09": c09, "C10": c10, "C12": c12}
 
 
 def main():
